@@ -147,7 +147,7 @@ func lower(t *rt.Thread, c *rt.GoCont) (rt.Cont, error) {
 		return nil, err
 	}
 	t.RequireBytes(len(s))
-	s = strings.ToLower(string(s))
+	s = switchCase(s, 'A', 'Z')
 	return c.PushingNext1(t.Runtime, rt.StringValue(s)), nil
 }
 
@@ -160,8 +160,22 @@ func upper(t *rt.Thread, c *rt.GoCont) (rt.Cont, error) {
 		return nil, err
 	}
 	t.RequireBytes(len(s))
-	s = strings.ToUpper(string(s))
+	s = switchCase(s, 'a', 'z')
 	return c.PushingNext1(t.Runtime, rt.StringValue(s)), nil
+}
+
+// switchCase returns a copy of s where the case of the ASCII letters between
+// first and last is switched.  A Lua string is a sequence of bytes, not UTF-8
+// text: as in the reference implementation (in the C locale) all other bytes
+// are left unchanged.
+func switchCase(s string, first, last byte) string {
+	b := []byte(s)
+	for i, c := range b {
+		if first <= c && c <= last {
+			b[i] = c ^ ('a' - 'A')
+		}
+	}
+	return string(b)
 }
 
 func rep(t *rt.Thread, c *rt.GoCont) (rt.Cont, error) {
